@@ -376,10 +376,17 @@ func cmdCheck(args []string) {
 					if strings.HasPrefix(kv, "cases=") {
 						evaluated = strings.TrimPrefix(kv, "cases=")
 					}
+					if strings.HasPrefix(kv, "histories=") {
+						evaluated = strings.TrimPrefix(kv, "histories=")
+					}
 					if strings.HasPrefix(kv, "failures=") {
 						nfail = strings.TrimPrefix(kv, "failures=")
 					}
 				}
+			}
+			if strings.HasPrefix(l, "FAILING-HISTORY ") && firstIn == "" {
+				firstIn = strings.TrimPrefix(l, "FAILING-HISTORY ")
+				firstMsg = "the property-level oracle fails on this history against the real code"
 			}
 			if strings.HasPrefix(l, "FAILING-CASE ") && firstIn == "" {
 				firstIn = strings.TrimPrefix(l, "FAILING-CASE ")
@@ -392,6 +399,9 @@ func cmdCheck(args []string) {
 					firstMsg = strings.TrimPrefix(rest[len(q):], ": ")
 				}
 			}
+		}
+		if sawSearch && nfail == "" && firstIn == "" {
+			nfail = "0"
 		}
 		entry := map[string]interface{}{"name": bs.Name, "kind": "BOUNDED stand-in (not a proof)", "bound": bs.Bound, "covers": bs.Covers, "cmd": strings.Join(args, " "), "evaluated": evaluated, "failures": nfail, "wall_s": time.Since(t0b).Seconds()}
 		boundedEv = append(boundedEv, entry)
